@@ -353,6 +353,41 @@ Proof.
   eapply Forall_impl; [|apply (IH _ Hc)]. intros [a b] [H1 H2]. cbn [fst snd] in *. lia.
 Qed.
 
+Lemma sorted_before (acc : list N) t l : StronglySorted N.lt (acc ++ t :: l) -> Forall (fun x => x < t) acc.
+Proof.
+  induction acc as [|a acc IH]; intros H; [constructor|]. cbn [app] in H. inversion H as [|? ? Hs Hall]; subst.
+  constructor; [|now apply IH]. rewrite Forall_forall in Hall. apply Hall. apply in_or_app. right. now left.
+Qed.
+
+Lemma accepted_sorted_gen : forall l acc, StronglySorted N.lt (acc ++ l) -> fold_left accept l acc = acc ++ l.
+Proof.
+  induction l as [|t l IH]; intros acc H; cbn [fold_left]; [now rewrite app_nil_r|].
+  assert (Ea : accept acc t = acc ++ [t]).
+  { unfold accept. destruct (last_of acc) as [x|] eqn:El; [|reflexivity].
+    pose proof (sorted_before acc t l H) as Hall. rewrite Forall_forall in Hall. specialize (Hall x (last_of_in _ _ El)).
+    destruct (N.ltb_spec x t); [reflexivity|lia]. }
+  rewrite Ea, IH by (now rewrite <- app_assoc). now rewrite <- app_assoc.
+Qed.
+
+Lemma accepted_sorted l : StronglySorted N.lt l -> accepted l = l.
+Proof. intros H. unfold accepted. now rewrite accepted_sorted_gen. Qed.
+
+Lemma times_of_concat opss : times_of (concat opss) = concat (map times_of opss).
+Proof. induction opss as [|o r IH]; [reflexivity|]. cbn [concat map]. now rewrite times_of_app, IH. Qed.
+
+Lemma sorted_pieces : forall (tss : list (list N)), StronglySorted N.lt (concat tss) -> Forall (StronglySorted N.lt) tss.
+Proof.
+  induction tss as [|a r IH]; intros H; [constructor|]. cbn [concat] in H.
+  constructor; [eapply sorted_app_l; exact H|apply IH; eapply sorted_app_r; exact H].
+Qed.
+
+Lemma accepted_pieces (opss : list (list enc_op)) : Forall (StronglySorted N.lt) (map times_of opss) ->
+  concat (map (fun o => accepted (times_of o)) opss) = concat (map times_of opss).
+Proof.
+  induction opss as [|o r IH]; intros H; [reflexivity|]. cbn [map concat] in *. apply Forall_cons_iff in H as [H1 H2].
+  rewrite accepted_sorted by exact H1. f_equal. now apply IH.
+Qed.
+
 Section Mt.
 Variable parse_f64 : list byte -> option (list byte).
 Variable lz_compress : list byte -> list byte.
@@ -449,41 +484,6 @@ Proof.
     + exists e1. split; [exact He1|]. rewrite Hfe, <- Hta. cbn [concat]. now rewrite app_assoc.
 Qed.
 
-Lemma sorted_before (acc : list N) t l : StronglySorted N.lt (acc ++ t :: l) -> Forall (fun x => x < t) acc.
-Proof.
-  induction acc as [|a acc IH]; intros H; [constructor|]. cbn [app] in H. inversion H as [|? ? Hs Hall]; subst.
-  constructor; [|now apply IH]. rewrite Forall_forall in Hall. apply Hall. apply in_or_app. right. now left.
-Qed.
-
-Lemma accepted_sorted_gen : forall l acc, StronglySorted N.lt (acc ++ l) -> fold_left accept l acc = acc ++ l.
-Proof.
-  induction l as [|t l IH]; intros acc H; cbn [fold_left]; [now rewrite app_nil_r|].
-  assert (Ea : accept acc t = acc ++ [t]).
-  { unfold accept. destruct (last_of acc) as [x|] eqn:El; [|reflexivity].
-    pose proof (sorted_before acc t l H) as Hall. rewrite Forall_forall in Hall. specialize (Hall x (last_of_in _ _ El)).
-    destruct (N.ltb_spec x t); [reflexivity|lia]. }
-  rewrite Ea, IH by (now rewrite <- app_assoc). now rewrite <- app_assoc.
-Qed.
-
-Lemma accepted_sorted l : StronglySorted N.lt l -> accepted l = l.
-Proof. intros H. unfold accepted. now rewrite accepted_sorted_gen. Qed.
-
-Lemma times_of_concat opss : times_of (concat opss) = concat (map times_of opss).
-Proof. induction opss as [|o r IH]; [reflexivity|]. cbn [concat map]. now rewrite times_of_app, IH. Qed.
-
-Lemma sorted_pieces : forall (tss : list (list N)), StronglySorted N.lt (concat tss) -> Forall (StronglySorted N.lt) tss.
-Proof.
-  induction tss as [|a r IH]; intros H; [constructor|]. cbn [concat] in H.
-  constructor; [eapply sorted_app_l; exact H|apply IH; eapply sorted_app_r; exact H].
-Qed.
-
-Lemma accepted_pieces (opss : list (list enc_op)) : Forall (StronglySorted N.lt) (map times_of opss) ->
-  concat (map (fun o => accepted (times_of o)) opss) = concat (map times_of opss).
-Proof.
-  induction opss as [|o r IH]; intros H; [reflexivity|]. cbn [map concat] in *. apply Forall_cons_iff in H as [H1 H2].
-  rewrite accepted_sorted by exact H1. f_equal. now apply IH.
-Qed.
-
 (* the time table of the multi-threaded load: the threads' accepted tables one after the other *)
 Lemma mt_time_table tpes : forall opss encs first others e blocks ttb,
   Forall2 (fun o en => run_ops parse_f64 lz_compress cap (enc_new tpes) o = Ok en) opss encs ->
@@ -500,6 +500,32 @@ Proof.
   destruct opss as [|o0 opss]; [inversion Hts|]. cbn [map] in *. inversion Hts as [|? ? ? ? Hfirst Hothers]; subst.
   destruct (append_all_ftt others first e _ _ Happ Hfirst Hothers) as (e1 & He1 & Hfe).
   unfold enc_finish in Hfin. rewrite He1 in Hfin. cbn [bind] in Hfin. injection Hfin as _ <-. cbn [concat]. exact Hfe.
+Qed.
+
+(* what both branches do, independent of the kind of signal looked at *)
+Lemma mt_common debug tpes lookup ls len0 rest stop_st e_st encs :
+  Forall line_ok ls -> starts_with_time ls ->
+  contig 0 ((0%nat, len0) :: rest) -> (length (body ls) <= end_of 0 ((0%nat, len0) :: rest))%nat ->
+  N.of_nat (length (body ls)) <= stop_st + 1 ->
+  read_single_stream parse_f64 lz_compress cap debug tpes lookup (body ls) stop_st true = Ok e_st ->
+  Forall2 (fun c en => run_chunk parse_f64 lz_compress cap debug tpes lookup (body ls) c = Ok en) ((0%nat, len0) :: rest) encs ->
+  exists ops opss,
+    ops_of lookup true false (evs ls) = Some ops /\
+    run_ops parse_f64 lz_compress cap (enc_new tpes) ops = Ok e_st /\
+    ops = concat opss /\
+    Forall2 (fun o en => run_ops parse_f64 lz_compress cap (enc_new tpes) o = Ok en) opss encs /\
+    Forall starts_with_optime opss.
+Proof.
+  intros Hok Hst Hcontig Hend Hstop Hrs Hchunks.
+  unfold read_single_stream in Hrs. rewrite body_render, (parse_body_lines debug ls stop_st Hok ltac:(rewrite <- body_render; exact Hstop)) in Hrs.
+  destruct (feed_events parse_f64 lz_compress cap lookup (mk_ve (enc_new tpes) true false) (flat_map events_of ls)) as [ve| |] eqn:Ef; try discriminate.
+  cbn [bind] in Hrs. injection Hrs as <-.
+  destruct (feed_events_ops parse_f64 lz_compress cap lookup _ _ _ _ _ Ef) as (ops & Ho & Hr). fold (evs ls) in Ho.
+  destruct (ops_tile lookup ls len0 rest ops Hok Hst Hcontig Hend Ho) as (opss & Hth & Hcat).
+  pose proof (contig_all _ _ Hcontig) as Hall.
+  exists ops, opss. split; [exact Ho|]. split; [exact Hr|]. split; [exact Hcat|]. split.
+  - apply (runs_of_chunks debug tpes lookup ls Hok _ opss encs Hth Hchunks). eapply Forall_impl; [|exact Hall]. intros c [H _]. exact H.
+  - apply (optime_of_chunks lookup ls Hok Hst _ opss Hth). eapply Forall_impl; [|exact Hall]. intros c [_ H]. lia.
 Qed.
 
 (* Property C03 for bodies written one token group per line, first line a time stamp, time stamps increasing:
